@@ -206,7 +206,8 @@ def concretise(ctx, plan, acts, sc_id, big_budget):
 def directed(ctx, sc0):
     """One fixed scenario per mandatory plan: the second HTTP-TS consumer and the RTSP subscriber join between the two
     publishers (so they are attached when the later one starts) or in the middle of the later one, key frames follow
-    every join."""
+    every join.  Both kinds of join happen with a TS GOP cache of one and of two GOPs: the earlier publisher leaves one
+    (three) cached GOPs behind, which a late joiner of the later publisher must not be handed."""
     out = []
     for pi, plan in enumerate(PLANS_QUICK[:5] + [[VO, AO], [AO, VO]]):
         steps = [{"name": "Join", "c": "t1"}]
@@ -250,7 +251,7 @@ def directed(ctx, sc0):
             steps.append({"name": "PubLeave"})
         v0, a0 = plan[0]
         out.append({"sc": sc0 + len(out), "plan": plan_name(plan), "steps": steps,
-                    "cfg": {"v": v0, "a": a0, "gop": [1, 0, 2, 0, 1, 0, 2][pi % 7], "hls": True, "fragMs": 100, "rtsp": True,
+                    "cfg": {"v": v0, "a": a0, "gop": [1, 1, 2, 2, 1, 0, 2][pi % 7], "hls": True, "fragMs": 100, "rtsp": True,
                             "enh": False, "rep": True}})
     return out
 
@@ -297,7 +298,9 @@ def why_lines(ctx, prefix):
     return out
 
 
-def run_republish(ctx):
+def run_republish(ctx, only=None):
+    """only: predicate on the failing consumer classes of a rejection ('ts', 'hls', 'rg', ...); rejections it refuses are
+    left to the properties that own them"""
     E.build_harness(ctx)
     if ctx.quick:
         plans = PLANS_QUICK
@@ -410,6 +413,9 @@ def run_republish(ctx):
             parts = whys.get((sh, g0 - lo + r["line"] + 1))
         kind = ev.get("m", {}).get("k", "") if ev.get("ev") == "Pub" else ""
         cls = sorted(set(re.sub(r"\bt[12]\b", "ts", x.strip()) for x in (parts or "?").strip("{}").split(",")))
+        if only is not None and not only(cls):
+            ctx.log("republish rejection outside this property (%s), left to C02 / C16" % "+".join(cls))
+            continue
         sig = "republish:%s:%s:%s:%s" % (ev.get("ev"), kind, "first" if nep_before == 0 else "later", "+".join(cls))
         E.report(ctx, sig, "republish trace rejected at %s (scenario %s plan %s line %d, epoch %d, failing parts %s): %s" %
                  (ev.get("ev"), r["sc"], sc and sc["plan"], r["line"], nep_before + 1, parts, json.dumps(ev)[:500]),
